@@ -100,7 +100,7 @@ pub use array_sharded_ext::ArrayShardedExt;
 #[cfg(feature = "sharding")]
 pub use array_sync_sharded_readable_ext::{ArrayShardedReadableExt, ArrayShardedReadableExtCache};
 
-use zarrs_metadata::{v2::array::DataTypeMetadataV2, v3::UnsupportedAdditionalFieldError};
+use zarrs_metadata::v3::UnsupportedAdditionalFieldError;
 // TODO: Add AsyncArrayShardedReadableExt and AsyncArrayShardedReadableExtCache
 
 use crate::{
@@ -692,18 +692,9 @@ impl<TStorage: ?Sized> Array<TStorage> {
                             compressor.set_id(codec_aliases.default_name(identifier).to_string());
                         }
                     }
-                    let data_type_aliases = config.data_type_aliases_v2();
-                    {
-                        match &mut metadata.dtype {
-                            DataTypeMetadataV2::Simple(dtype) => {
-                                let identifier = data_type_aliases.identifier(dtype);
-                                *dtype = data_type_aliases.default_name(identifier).to_string();
-                            }
-                            DataTypeMetadataV2::Structured(_) => {
-                                // FIXME: structured data type support
-                            }
-                        }
-                    }
+                    // A Zarr V2 data type is left as given: it is a NumPy typestr that also carries the
+                    // endianness (e.g. ">i2"), and the V2 aliases only map such strings to identifiers (e.g. "int16"),
+                    // which are not valid V2 data types.
                 }
             }
         }
